@@ -172,6 +172,7 @@ def app_check(ctx, prop, props_v, theorems, codes, pred, extra_assume, known_cla
     res = V.run_case_files(ctx, files, names=("bad", "eff", "neff") + tuple(e.split("=")[0] for e in (extra_evals or "").split("|") if "=" in e))
     found_input = False
     EFFECT_TEXT = {20: "an EVM-path transaction succeeded but the node exhibited no effect", 21: "the accounts touched by an EVM execution did not lose exactly gas used x price in total (hypothesis evm_effect_fee_ok of the C02/C16 EVM-path theorems)",
+                   24: "value vanished during an EVM execution: the touched accounts lost more than gas used x price although no program of this history destroys value and every address the programs can pay is watched (C02 conservation / C16 exact fee)",
                    22: "the sender's nonce after an EVM execution is not nonce + 1 (evm_effect_nonce_ok, C04)", 23: "an EVM execution lowered the nonce of a sending account (evm_effect_mono_at, C04)"}
     ctx.effects_checked = 0
     for f, r in res.items():
